@@ -35,16 +35,20 @@ Definition cigar := list (cop * nat).
      r_ins_span        _detect_alleles at an I operation queues every insertion variant located less than
                        `length` reference bases downstream (`ref_end = ref_pos + length` although I consumes no
                        reference): false = the code, true = repaired (only variants at ref_pos itself)
+     r_distance        AlignedRead.distance: false = the code, max(other.end - self.start, other.start - self.end, 0),
+                       which is the reference span for the alignment itself (a primary alignment longer than the
+                       distance threshold drops out of its own group and loses all alleles) and 0 for any alignment
+                       to the left; true = repaired: the gap max(other.start - self.end, self.start - other.end, 0)
      r_pair_keep_mate  create_read_from_group: false = the code (drops every alignment whose strand differs
                        from the last primary one, i.e. one mate of every FR pair), true = repaired (the strand
                        filter applies to supplementary alignments only) *)
 Record rules := mkRules { r_skip_consumed : bool; r_ins_left_flank : bool; r_pair_keep_mate : bool;
-                          r_ins_span : bool }.
-Definition current_rules := mkRules false false false false.
-Definition repaired_rules := mkRules true true true true.
+                          r_ins_span : bool; r_distance : bool }.
+Definition current_rules := mkRules false false false false false.
+Definition repaired_rules := mkRules true true true true true.
 (* all rules repaired except number k *)
 Definition all_but (k : nat) : rules :=
-  mkRules (negb (k =? 0)) (negb (k =? 1)) (negb (k =? 2)) (negb (k =? 3)).
+  mkRules (negb (k =? 0)) (negb (k =? 1)) (negb (k =? 2)) (negb (k =? 3)) (negb (k =? 4)).
 
 Record variant := mkVar { vpos : nat; vref : list Z; valt : list Z }.
 
@@ -506,12 +510,14 @@ Fixpoint alignments_to_reads (R : rules) (reference : option (list Z)) (overhang
   end.
 
 (* AlignedRead.distance *)
-Definition ar_distance (p o : aligned_read) : Z :=
-  Z.max (Z.max (Z.of_nat (ar_end o) - Z.of_nat (ar_start p)) (Z.of_nat (ar_start o) - Z.of_nat (ar_end p))) 0.
+Definition ar_distance (R : rules) (p o : aligned_read) : Z :=
+  if r_distance R
+  then Z.max (Z.max (Z.of_nat (ar_start o) - Z.of_nat (ar_end p)) (Z.of_nat (ar_start p) - Z.of_nat (ar_end o))) 0
+  else Z.max (Z.max (Z.of_nat (ar_end o) - Z.of_nat (ar_start p)) (Z.of_nat (ar_start o) - Z.of_nat (ar_end p))) 0.
 
 (* the rule of create_read_from_group deciding which members of a group contribute *)
 Definition group_member_used (R : rules) (threshold : Z) (primary r : aligned_read) : bool :=
-  (Bool.eqb (ar_reverse r) (ar_reverse primary) || (r_pair_keep_mate R && negb (ar_supp r))) && Z.leb (ar_distance primary r) threshold.
+  (Bool.eqb (ar_reverse r) (ar_reverse primary) || (r_pair_keep_mate R && negb (ar_supp r))) && Z.leb (ar_distance R primary r) threshold.
 
 Fixpoint last_primary (g : list aligned_read) (acc : option aligned_read) : option aligned_read :=
   match g with [] => acc | r :: g' => last_primary g' (if ar_supp r then acc else Some r) end.
@@ -569,8 +575,10 @@ Definition read_set (R : rules) (reference : option (list Z)) (overhang mapq_thr
   | Some rs => Some (keep_some (map (read_from_group R threshold) (group_reads rs)))
   end.
 
-Definition read_set_default (R : rules) (reference : option (list Z)) (variants : list variant) (alns : list alignment) :=
-  read_set R reference 10 20 false false 100000%Z variants alns.
+(* the defaults of ReadSetReader except for the supplementary distance threshold *)
+Definition read_set_default (R : rules) (reference : option (list Z)) (threshold : Z) (variants : list variant)
+           (alns : list alignment) :=
+  read_set R reference 10 20 false false threshold variants alns.
 
 (* ------------------------------------------------------------------------------------------------
    specification side, evaluated on the implementation's own output *)
@@ -657,7 +665,7 @@ Definition only_overlapped_or_touched (mapq_threshold : nat) (use_supp duplicate
 (* One correspondence case.  truth / must: variants whose re-alignment window is free of other differences
    (reference mode) resp. all fully covered variants (reference-free mode); truth_skip / must_skip: the window
    is clean except that it reaches a reference skip; must_pair: like must, but also for the mate on the other strand *)
-Definition case_t := (option (list Z) * list variant * list alignment
+Definition case_t := ((option (list Z) * Z) * list variant * list alignment
                       * (truth_t * truth_t) * (must_t * must_t * must_t)
                       * option (list (nat * list rvar)))%type.
 
@@ -682,8 +690,8 @@ Definition l1_missing_pair (c : case_t) : bool :=
 Definition l1_no_crash (c : case_t) : bool :=
   match c_out c with Some _ => true | None => false end.
 Definition l2_model_with (R : rules) (c : case_t) : bool :=
-  let '(reference, variants, alns, _, _, out) := c in
-  match out, read_set_default R reference variants alns with
+  let '((reference, threshold), variants, alns, _, _, out) := c in
+  match out, read_set_default R reference threshold variants alns with
   | Some o, Some m => out_eqb o m
   | None, None => true
   | _, _ => false
@@ -693,8 +701,8 @@ Definition clauses_ok (c : case_t) : bool :=
   l1_no_crash c && l1_no_wrong c && l1_no_wrong_skip c && l1_overlap c && l1_missing c && l1_missing_skip c
   && l1_missing_pair c.
 Definition with_model (R : rules) (c : case_t) : case_t :=
-  let '(reference, variants, alns, tr, mu, _) := c in
-  (reference, variants, alns, tr, mu, read_set_default R reference variants alns).
+  let '((reference, threshold), variants, alns, tr, mu, _) := c in
+  ((reference, threshold), variants, alns, tr, mu, read_set_default R reference threshold variants alns).
 (* the same input under the repaired rules satisfies every L1 clause (evaluated on the model's output) *)
 Definition repaired_ok (c : case_t) : bool := clauses_ok (with_model repaired_rules c).
 (* attribution of a failing case to the defective rules: rule k is needed iff repairing all others is not enough *)
@@ -750,3 +758,80 @@ Definition query_index (cig : cigar) (start p : nat) : option nat := qidx cig st
 
 (* a single-base substitution after normalisation *)
 Definition snv_shape (v : variant) : Prop := length (vref v) = 1 /\ length (valt v) = 1.
+
+(* vocabulary of the reference-free theorem: the alignment shows allele `carried` of the (normalised) variant v
+   at the variant's position, the way _detect_alleles expects it *)
+Definition pure_indel (v : variant) : Prop := (vref v = [] /\ valt v <> []) \/ (valt v = [] /\ vref v <> []).
+Definition allele_units (v : variant) (carried : nat) (V : list cop) : Prop :=
+  match carried with
+  | 0 => forallb is_match V = true /\ length V = length (vref v)
+  | _ => exists M, forallb is_match M = true /\ length M = Nat.min (length (vref v)) (length (valt v)) /\
+                   V = M ++ repeat OpI (length (valt v) - length (vref v))
+                         ++ repeat OpD (length (vref v) - length (valt v))
+  end.
+(* the variant's operations are preceded and followed by an aligned base *)
+Definition flanked (pre post : list cop) : Prop :=
+  (exists pre' m, pre = pre' ++ [m] /\ is_match m = true) /\ (exists m post', post = m :: post' /\ is_match m = true).
+
+(* ------------------------------------------------------------------------------------------------
+   full statements (parametrised by the rule set) that the code as it is refutes; see props/C06.v *)
+
+(* realign_correct where a re-alignment window may also end at a reference skip (N) -- for any R the skip variant
+   of window_end is the one of the repaired rule set *)
+Definition realign_correct_with_skips_statement (R : rules) : Prop :=
+  forall (reference query : list Z) (overhang : nat) (v : variant) (cig : cigar)
+         (i consumed qpos : nat) (op : cop) (len : nat) (pre LM V RM post : list cop)
+         (r1 WL WR r2 q1 q2 : list Z) (carried : nat),
+  0 < overhang -> positive_lengths cig ->
+  nth_error cig i = Some (op, len) -> consumed <= len ->
+  firstn (unit_index cig i consumed) (expand cig) = pre ++ LM ->
+  skipn (unit_index cig i consumed) (expand cig) = V ++ RM ++ post ->
+  forallb is_match LM = true -> forallb is_match RM = true -> forallb is_aligned V = true ->
+  carried <= 1 ->
+  ref_units V = length (vref v) -> query_units V = length (get_allele v carried) ->
+  (overhang <= length LM \/ window_end repaired_rules (rev pre)) ->
+  (overhang <= length RM \/ window_end repaired_rules post) ->
+  reference = r1 ++ WL ++ vref v ++ WR ++ r2 -> vpos v = length r1 + length WL ->
+  query = q1 ++ WL ++ get_allele v carried ++ WR ++ q2 ->
+  length WL = length LM -> length WR = length RM ->
+  length q1 = query_units pre -> qpos = query_units (pre ++ LM) ->
+  vref v <> valt v -> is_symbolic v = false ->
+  realign R reference overhang v cig query i consumed qpos = Some (Some carried).
+
+(* without reference: an alignment that shows allele `carried` of a (normalised) SNV or pure insertion/deletion at the
+   variant's position -- flanked by aligned bases in the indel case -- is never assigned the other allele, whatever
+   else (clips, skips, other insertions/deletions, other variants) the alignment and the variant list contain *)
+Definition detect_noref_never_wrong_statement (R : rules) : Prop :=
+  forall (variants : list variant) (start : nat) (cig : cigar) (query quals : list Z) (j a q : nat)
+         (v : variant) (carried : nat) (pre V post : list cop) (q1 q2 : list Z),
+  sorted_pos (index_from 0 (map normalized variants)) ->
+  In (j, a, q) (detect_noref R variants start cig query quals) ->
+  nth_error (map normalized variants) j = Some v ->
+  (snv_shape v \/ pure_indel v) -> vref v <> valt v -> carried <= 1 ->
+  expand cig = pre ++ V ++ post -> vpos v = start + ref_units pre -> allele_units v carried V ->
+  query = q1 ++ get_allele v carried ++ q2 -> length q1 = query_units pre ->
+  (pure_indel v -> flanked pre post) ->
+  a = carried.
+
+(* without reference: an allele is only recorded for a variant whose footprint meets the reference span of the alignment *)
+Definition detect_noref_only_overlapped_statement (R : rules) : Prop :=
+  forall (variants : list variant) (start : nat) (cig : cigar) (query quals : list Z) (j a q : nat) (v0 : variant),
+  sorted_pos (index_from 0 (map normalized variants)) ->
+  In (j, a, q) (detect_noref R variants start cig query quals) ->
+  nth_error variants j = Some v0 ->
+  start < vpos v0 + Nat.max 1 (length (vref v0)) /\ vpos v0 < start + ref_units (expand cig).
+
+(* the two primary alignments of a read pair both contribute their alleles *)
+Definition pair_keeps_both_mates_statement (R : rules) : Prop :=
+  forall (threshold : Z) (r1 r2 : aligned_read) (x : rvar),
+  ar_supp r1 = false -> ar_supp r2 = false -> ar_name r1 = ar_name r2 ->
+  Z.leb (ar_distance R r2 r1) threshold = true ->
+  In x (ar_vars r1) -> (forall y, In y (ar_vars r1 ++ ar_vars r2) -> fst (fst y) = fst (fst x) -> y = x) ->
+  exists vs, read_from_group R threshold [r1; r2] = Some (ar_name r2, vs) /\ In x vs.
+
+(* a single primary alignment keeps the alleles detected on it *)
+Definition single_alignment_kept_statement (R : rules) : Prop :=
+  forall (threshold : Z) (r : aligned_read) (x : rvar),
+  (0 <= threshold)%Z -> ar_supp r = false -> ar_start r <= ar_end r -> In x (ar_vars r) ->
+  (forall y, In y (ar_vars r) -> fst (fst y) = fst (fst x) -> y = x) ->
+  exists vs, read_from_group R threshold [r] = Some (ar_name r, vs) /\ In x vs.
